@@ -254,6 +254,13 @@ type Observation struct {
 	Responses     []string
 }
 
+func init() {
+	// Input-object literals (defaults, directive arguments) are Go maps: without
+	// Sort the library prints their keys in Go's random map order, which is not
+	// a difference between two schemas.
+	ggql.Sort = true
+}
+
 // Cheap is the part of an observation that costs microseconds.
 func Cheap(root *ggql.Root) (out string) {
 	defer func() {
@@ -355,6 +362,31 @@ func RequestsFor(root *ggql.Root, roots [3]string) (reqs []string) {
 			continue
 		}
 		reqs = append(reqs, kw+sel)
+		// the composite selection expands the first two object-typed fields only:
+		// every further one gets a request of its own
+		if o, _ := t.(*ggql.Object); o != nil {
+			nested := 0
+			for _, fd := range o.Fields() {
+				switch ggql.BaseType(fd.Type).(type) {
+				case *ggql.Object, *ggql.Interface, *ggql.Union:
+					nested++
+					if nested <= 2 || nested > 10 {
+						continue
+					}
+					call := fd.Name()
+					var args []string
+					for _, a := range fd.Args() {
+						if _, ok := a.Type.(*ggql.NonNull); ok {
+							args = append(args, a.Name()+": "+literalFor(a.Type, 0))
+						}
+					}
+					if len(args) > 0 {
+						call += "(" + strings.Join(args, ", ") + ")"
+					}
+					reqs = append(reqs, kw+" { "+call+selectionFor(fd.Type, 1)+" }")
+				}
+			}
+		}
 		// every value of every enum-typed argument is used as an input once (a value
 		// that is printed and introspected but cannot be coerced in is a different schema)
 		var fds []*ggql.FieldDef
